@@ -209,13 +209,17 @@ PROPS = {
     "C11": {
         "tus": ["t_fround"],
         "configs": int_cfgs,
-        "rule": "ceil/floor/trunc/round: every one of the 2^32 float bit patterns for the widest float vector of each configuration class (every width in thorough), "
-                "F32L u F32H for the other widths, F64S for double; nearbyint/rint: the same in round-to-nearest and F32L u F32H / F64S in the other three modes "
-                "(exhaustive in every mode in thorough); KF in every lane against every fill. non-trivial: finite non-integral input below 2^23 (2^52).",
+        "rule": "ceil/floor/trunc/round/nearbyint/rint under FE_TONEAREST: every one of the 2^32 float bit patterns for the widest float vector of each "
+                "float-arm configuration class (quick) / for every width of the arm-cover configurations (thorough), F32L u F32H for the other widths and classes, "
+                "F64S for double; all six functions again under FE_UPWARD, FE_DOWNWARD and FE_TOWARDZERO over F32L u F32H / F64S (over the 2^32 patterns "
+                "in the arm-cover builds of thorough); KF in every lane against every fill. non-trivial: finite non-integral input below 2^23 (2^52).",
         "explanation": "every rounding function on every bit pattern against <cmath> under the same rounding mode; comparison is bit for bit when the input is "
                        "integral, infinite or zero (so f(-0.0) must be -0.0), NaN for NaN, and by value otherwise (libm's -0.0 for inputs in (-1,-0) equals AVEL's +0.0). "
+                       "round is compared with a bit-pattern reference that a start-up self-check binds to glibc's round in every mode. "
                        "The MXCSR/x87 control words are compared before and after every exploration in every harness of C01..C17 (second clause).",
-        "assumptions": ["glibc's ceilf/floorf/truncf/roundf/nearbyintf/rintf (inlined as SSE4.1 rounding instructions) are the reference"],
+        "assumptions": ["glibc's ceilf/floorf/truncf/nearbyintf/rintf (inlined as SSE4.1 rounding instructions) and round (through the self-checked reference) are the reference",
+                        "Clang builds: round of the width-1 vector and of the scalar overload (both forward to std::round) is explored under FE_TONEAREST only - "
+                        "Clang expands std::round inline to a sequence that depends on the rounding mode, which is the compiler's choice and not AVEL code"],
     },
     "C12": {
         "tus": ["t_fmanip"],
